@@ -263,7 +263,9 @@ func judgeURL(w *core.W, c *urlCase) {
 			return map[string]interface{}{"route": c.Route, "pairs": c.Pairs, "url": core.B(got)}
 		})
 	}
-	w.Sample(func() interface{} { return map[string]interface{}{"route": c.Route, "pairs": c.Pairs, "url": core.B(got)} })
+	w.Sample(func() interface{} {
+		return map[string]interface{}{"route": c.Route, "pairs": c.Pairs, "url": core.B(got)}
+	})
 }
 
 func genNameCase(rng *rand.Rand) *nameCase {
